@@ -59,6 +59,10 @@ CASES = [
     ('sum_builtin', [('xs', MLI, _ilist)], I), ('negative_mod_float', [('a', I, _ints)], I), ('unary_ops', [('a', I, _ints), ('b', I, _ints)], I),
     ('compare_mixed', [('a', I, _ints), ('x', R, _flt)], B), ('string_in_list', [('s', S, _str), ('xs', LS, _slist)], B), ('list_equality', [('xs', MLI, _ilist), ('ys', MLI, _ilist)], B),
     ('max_of_list_len', [('xs', LI, _ilist), ('ys', MLI, _ilist)], I),
+    ('str_index', [('s', S, lambda r: r.choice(['a', 'ab', 'Zn', 'O2-', '']))], S), ('sorted_small', [('xs', MLI, _ilist1)], I), ('tuple_membership', [('a', I, _ints), ('b', I, _ints)], I),
+    ('nested_ternary', [('a', I, _ints), ('b', I, _ints)], I), ('both_negative_division', [('a', I, _ints), ('b', I, lambda r: r.choice([-5, -3, -2, -1, 2, 7]))], T.Tuple(I, I)),
+    ('int_of_negative', [('x', R, _flt)], I), ('float_abs_min', [('x', R, _flt), ('y', R, _flt)], R), ('string_compare_chain', [('s', S, _str), ('t', S, _str), ('u', S, _str)], I),
+    ('accumulate_in_try', [('xs', MLI, _ilist)], I), ('or_default', [('a', I, _ints), ('b', I, _ints)], I),
 ]
 SAFETY_KINDS = ('index', 'unpack', 'div', 'not-none', 'call-pre', 'zero')
 
